@@ -22,6 +22,9 @@ type c15Case struct {
 	Ops      []asmcat.Op `json:"ops"`
 	Tight    bool        `json:"tight"`    // buffer exactly as large as the program
 	Finalize bool        `json:"finalize"` // list again after Finalize
+	// ops[CloneFrom:CloneTo] are emitted into a Clone which is appended back (0,0 = everything directly)
+	CloneFrom int `json:"clone_from,omitempty"`
+	CloneTo   int `json:"clone_to,omitempty"`
 }
 
 var reHexTok = regexp.MustCompile(`0x([0-9a-f]{2}),`)
@@ -191,8 +194,36 @@ func c15Check(c c15Case) error {
 		capacity += 64
 	}
 	p := &emPair{em: asm.NewEmitter(make([]byte, capacity), true), m: asmcat.NewModel(capacity, false, true)}
+	orig := p.em
+	useClone := c.CloneTo > c.CloneFrom && c.CloneTo <= len(c.Ops)
+	join := func() error {
+		var pan interface{}
+		func() {
+			defer func() { pan = recover() }()
+			orig.Append(p.em)
+		}()
+		if pan != nil {
+			return fmt.Errorf("Append of the clone failed: %v", pan)
+		}
+		p.em, p.lenBias = orig, 0
+		return nil
+	}
 	for i, o := range c.Ops {
+		if useClone && i == c.CloneFrom {
+			p.lenBias = orig.Len()
+			p.em = orig.Clone(make([]byte, capacity))
+		}
+		if useClone && i == c.CloneTo {
+			if err := join(); err != nil {
+				return err
+			}
+		}
 		if err := p.step(i, o); err != nil {
+			return err
+		}
+	}
+	if useClone && p.em != orig {
+		if err := join(); err != nil {
 			return err
 		}
 	}
@@ -244,6 +275,10 @@ func TestC15(t *testing.T) {
 			r.Rapid("rapid", rig.Pick(25000, 100000), func(t *rapid.T) {
 				c := c15Case{Tight: rapid.IntRange(0, 3).Draw(t, "tight") == 0, Finalize: rapid.Bool().Draw(t, "finalize")}
 				c.Ops = asmcat.GenHistory(t, asmcat.GenOpts{MaxOps: rig.Pick(30, 80), Labels: true, Data: true, Comments: true, LongComments: true, SetBase: true, Assume: true})
+				if len(c.Ops) > 1 && rapid.IntRange(0, 3).Draw(t, "via-clone") == 0 {
+					c.CloneFrom = rapid.IntRange(0, len(c.Ops)-1).Draw(t, "clone-from")
+					c.CloneTo = rapid.IntRange(c.CloneFrom+1, len(c.Ops)).Draw(t, "clone-to")
+				}
 				r.Check(t, "rapid", c, func() error { return c15Check(c) })
 				nt := false
 				for i, o := range c.Ops {
@@ -263,6 +298,9 @@ func TestC15(t *testing.T) {
 				}
 				if c.Tight {
 					ev.Class("tight-buffer")
+				}
+				if c.CloneTo > c.CloneFrom {
+					ev.Class("part-emitted-through-Clone+Append")
 				}
 				if c.Finalize {
 					ev.Class("listed-after-finalize")
